@@ -183,6 +183,13 @@ void DNS::add_query(const query& query) {
     stream.write_be<uint16_t>(query.query_class());
 
     uint32_t offset = static_cast<uint32_t>(new_str.size()), threshold = answers_idx_;
+    // Make sure every record that's going to be moved is well formed before 
+    // modifying anything, so a malformed one doesn't leave the sections half updated
+    uint32_t answers_start = answers_idx_, authority_start = authority_idx_, 
+             additional_start = additional_idx_;
+    update_records(answers_start, answers_count(), threshold, 0);
+    update_records(authority_start, authority_count(), threshold, 0);
+    update_records(additional_start, additional_count(), threshold, 0);
     update_records(answers_idx_, answers_count(), threshold, offset);
     update_records(authority_idx_, authority_count(), threshold, offset);
     update_records(additional_idx_, additional_count(), threshold, offset);
@@ -230,6 +237,17 @@ void DNS::add_record(const resource& resource, const sections_type& sections) {
     // Take into account the MX preference field
     if (resource.query_type() == MX) {
         offset += sizeof(uint16_t);
+    }
+    // Make sure every record that's going to be moved is well formed before 
+    // modifying anything, so a malformed one doesn't leave the sections half updated
+    for (size_t i = 0; i < sections.size(); ++i) {
+        uint32_t section_start = *sections[i].first;
+        update_records(
+            section_start, 
+            sections[i].second, 
+            static_cast<uint32_t>(threshold),
+            0
+        );
     }
     for (size_t i = 0; i < sections.size(); ++i) {
         update_records(
